@@ -2,6 +2,7 @@
 block counts, optional-record flags) as symbolic inputs: every feasible combination within the bounds is explored,
 the file is written by the real Stream class into memory and read back by the same class."""
 import io
+import struct
 
 import numpy as np
 
@@ -26,22 +27,66 @@ def _run(streamCls, data, mode, raw=None):
     return s._stream
 
 
+def records_of(raw):
+    """independent walk over a binary CCCC file: [payload bytes, ...]; None if some record is not framed by two equal
+    byte counts or the file does not end with a complete record"""
+    out, pos = [], 0
+    while pos < len(raw):
+        if pos + 4 > len(raw):
+            return None
+        (n,) = struct.unpack("i", raw[pos:pos + 4])
+        if n < 0 or pos + 8 + n > len(raw):
+            return None
+        (n2,) = struct.unpack("i", raw[pos + 4 + n:pos + 8 + n])
+        if n2 != n:
+            return None
+        out.append(raw[pos + 4:pos + 4 + n])
+        pos += 8 + n
+    return out
+
+
+class RoundTrip:
+    """write `data`, read the result into a fresh container, write that again"""
+
+    def __init__(self, streamCls, data, binary=True):
+        self.binary = binary
+        self.raw = _run(streamCls, data, "wb" if binary else "w").getvalue()
+        self.back = streamCls._getDataContainer()
+        self.left, self.err, self.raw2 = -1, None, None
+        self.records = records_of(self.raw) if binary else None
+        try:
+            rd = _run(streamCls, self.back, "rb" if binary else "r", self.raw)
+            self.left = len(self.raw) - rd.tell()
+        except Exception as e:  # noqa: BLE001 (whatever the reader raises, it did not accept the file)
+            self.err = e
+            return
+        try:
+            self.raw2 = _run(streamCls, self.back, "wb" if binary else "w").getvalue()
+        except Exception as e:  # noqa: BLE001
+            self.raw2 = e
+
+    def obligations(self, ctx, numRecords=None):
+        """the obligations every format shares; False when there is nothing to compare any further"""
+        ctx.check("reader accepts what the writer produced", self.err is None)
+        if self.err is not None:
+            ctx.note("reader raised %s: %s" % (type(self.err).__name__, str(self.err).strip().splitlines()[-1][:200]
+                                               if str(self.err).strip() else ""))
+            return False
+        ctx.check("reader consumes the whole file", self.left == 0)
+        ctx.check("writing what was read reproduces the file byte for byte", self.raw2 == self.raw)
+        if self.binary:
+            ctx.check("the binary file is a sequence of records, each framed by two equal byte counts equal to its "
+                      "payload length", self.records is not None)
+            if numRecords is not None:
+                ctx.check("the file holds exactly the records its header announces",
+                          self.records is not None and len(self.records) == numRecords)
+        return True
+
+
 def roundtrip(ctx, streamCls, data, binary=True):
     """write `data`, read into a fresh container; returns (new container, leftover bytes, error or None)"""
-    out = _run(streamCls, data, "wb" if binary else "w")
-    raw = out.getvalue()
-    fresh = streamCls._getDataContainer()
-    try:
-        rd = _run(streamCls, fresh, "rb" if binary else "r", raw)
-        left = len(raw) - rd.tell()
-        return fresh, left, None
-    except (BufferError, ValueError, struct_error) as e:
-        return fresh, -1, e
-
-
-import struct  # noqa: E402
-
-struct_error = struct.error
+    c = RoundTrip(streamCls, data, binary)
+    return c.back, c.left, c.err
 
 
 def same_array(a, b, rtol=1e-6):
@@ -49,6 +94,22 @@ def same_array(a, b, rtol=1e-6):
         return a is None and b is None
     a, b = np.asarray(a), np.asarray(b)
     return a.shape == b.shape and bool(np.allclose(a.astype(float), b.astype(float), rtol=rtol, atol=0))
+
+
+def same_number(a, b, rtol=1e-6):
+    return a is not None and b is not None and abs(float(a) - float(b)) <= rtol * abs(float(a))
+
+
+def header_ok(written, back, keys, rtol=1e-6):
+    """ints exactly, reals to float32 precision"""
+    for k in keys:
+        w, r = written[k], back[k]
+        if isinstance(w, (int, np.integer)) and not isinstance(w, bool):
+            if r != w:
+                return False
+        elif not same_number(w, r, rtol):
+            return False
+    return True
 
 
 def setmd(md, values):
@@ -60,53 +121,169 @@ def seq(n, start, dtype=float):
     return np.arange(start, start + n, dtype=dtype)
 
 
-@harness("C09", bounds="GEODST: geometry type IGOM in 0..18, coarse/fine mesh counts 1..2 per direction, NBS, NRASS in "
-                       "{0,1}: all combinations (solver-enumerated), binary encoding", stubs=STUBS, max_paths=5000,
-         instances={"quick": [dict(binary=True)], "thorough": [dict(binary=True), dict(binary=False)]})
-def geodst_roundtrip_for_every_header(ctx, binary):
-    g = int(ctx.int("IGOM", 0, 18))
-    ni, nj, nk = (int(ctx.int(n, 1, 2)) for n in ("NCINTI", "NCINTJ", "NCINTK"))
-    nbs = int(ctx.int("NBS", 0, 1))
-    nrass = int(ctx.int("NRASS", 0, 1))
+def first_block(nintj, nblok):
+    """columns (0-based, half open) of the first of NBLOK blocks.  CCCC-IV: 'JL=(M-1)*((NINTJ-1)/NBLOK+1)+1,
+    JU=MIN0(NINTJ,JUP), JUP=M*((NINTJ-1)/NBLOK+1)' for M = 1"""
+    return 0, min(nintj, (nintj - 1) // nblok + 1)
+
+
+# ---------------------------------------------------------------------------------------------------------------------
+# GEODST
+
+_GEODST_ARRAYS = ("xmesh", "iintervals", "ymesh", "jintervals", "zmesh", "kintervals", "regionVolumes", "bucklings",
+                  "boundaryConstants", "internalBlackBoundaryConstants", "zonesWithBlackAbs", "zoneClassifications",
+                  "regionZoneNumber", "coarseMeshRegions", "fineMeshRegions")
+
+
+def _fine_intervals(ncint, nint, start):
+    """fine-mesh intervals per coarse-mesh interval: they add up to the number of fine-mesh intervals"""
+    out = np.ones(ncint, dtype=int)
+    out[(start % ncint)] += nint - ncint
+    return out
+
+
+def _geodst_container(g, coarse, fine, nzone, nreg, nbs, nbcs, nibcs, nzwbb, nrass):
+    """a GEODST container filled exactly as the file-structure description in GeodstStream.readWrite announces for
+    this header; all arrays hold pairwise different numbers (region numbers as far as NREG allows)"""
+    (ni, nj, nk), (fi, fj, fk) = coarse, fine
     d = geodst.GeodstData()
     md = d.metadata
     md["label"] = "GEODST verif"
-    for k in geodst.FILE_SPEC_1D_KEYS:
-        md[k] = 0
-    setmd(md, dict(IGOM=g, NZONE=2, NREG=3, NCINTI=ni, NCINTJ=nj, NCINTK=nk, NINTI=ni + 1, NINTJ=nj + 1, NINTK=nk,
-                   NBS=nbs, NBCS=1, NIBCS=1, NZWBB=1, NRASS=nrass))
-    # what the file specification announces for this header (documented in GeodstStream.readWrite):
+    for i, k in enumerate(geodst.FILE_SPEC_1D_KEYS):
+        md[k] = 40 + i                         # pairwise different words where nothing below says otherwise
+    setmd(md, dict(IGOM=g, NZONE=nzone, NREG=nreg, NCINTI=ni, NCINTJ=nj, NCINTK=nk, NINTI=fi, NINTJ=fj, NINTK=fk,
+                   NBS=nbs, NBCS=nbcs, NIBCS=nibcs, NZWBB=nzwbb, NRASS=nrass))
     has1 = 1 <= g <= 3          # slab, cylinder, sphere: 1-D meshes
     has2 = 6 <= g <= 11         # 2-D geometries
     has3 = g >= 12              # 3-D geometries
     if has1 or has2 or has3:
-        d.xmesh, d.iintervals = seq(ni + 1, 0.5), seq(ni, 1, int)
+        d.xmesh, d.iintervals = seq(ni + 1, 0.5), _fine_intervals(ni, fi, 0)
     if has2 or has3:
-        d.ymesh, d.jintervals = seq(nj + 1, 10.5), seq(nj, 3, int)
+        d.ymesh, d.jintervals = seq(nj + 1, 10.5), _fine_intervals(nj, fj, 1)
     if has3:
-        d.zmesh, d.kintervals = seq(nk + 1, 20.5), seq(nk, 5, int)
+        d.zmesh, d.kintervals = seq(nk + 1, 20.5), _fine_intervals(nk, fk, 1)
     if g > 0 or nbs > 0:
-        d.regionVolumes, d.bucklings = seq(3, 100.0), seq(nbs, 0.25)
-        d.boundaryConstants, d.internalBlackBoundaryConstants = seq(1, 0.125), seq(1, 0.375)
-        d.zonesWithBlackAbs, d.zoneClassifications, d.regionZoneNumber = seq(1, 7, int), seq(2, 8, int), seq(3, 1, int)
+        d.regionVolumes, d.bucklings = seq(nreg, 100.0), seq(nbs, 0.25)
+        d.boundaryConstants, d.internalBlackBoundaryConstants = seq(nbcs, 1.125), seq(nibcs, 5.375)
+        d.zonesWithBlackAbs, d.zoneClassifications = seq(nzwbb, 7, int), seq(nzone, 11, int)
+        d.regionZoneNumber = (np.arange(nreg) % nzone + 1).astype(int)
     if g > 0 and nrass == 0:
-        d.coarseMeshRegions = (np.arange(ni * nj * nk).reshape(ni, nj, nk) % 3 + 1).astype(np.int16)
+        d.coarseMeshRegions = (np.arange(ni * nj * nk).reshape(ni, nj, nk) % nreg + 1).astype(np.int16)
     if g > 0 and nrass == 1:
-        d.fineMeshRegions = (np.arange((ni + 1) * (nj + 1) * nk).reshape(ni + 1, nj + 1, nk) % 3 + 1).astype(np.int16)
-    back, left, err = roundtrip(ctx, geodst.GeodstStream, d, binary)
-    ctx.check("reader accepts what the writer produced", err is None)
-    ctx.check("reader consumes the whole file", left == 0)
-    for name in ("xmesh", "iintervals", "ymesh", "jintervals", "zmesh", "kintervals", "regionVolumes", "bucklings",
-                 "boundaryConstants", "internalBlackBoundaryConstants", "zonesWithBlackAbs", "zoneClassifications",
-                 "regionZoneNumber", "coarseMeshRegions", "fineMeshRegions"):
+        d.fineMeshRegions = (np.arange(fi * fj * fk).reshape(fi, fj, fk) % nreg + 1).astype(np.int16)
+    return d
+
+
+def _geodst_num_records(g, nk, fk, nbs, nrass):
+    """file identification, file specifications, one mesh record for geometry types 1-3 / 6-11 / 12 and above, the
+    geometry data record iff IGOM > 0 or NBS > 0, and for IGOM > 0 one region-assignment record per axial COARSE
+    mesh interval (NRASS = 0) or per axial FINE mesh interval (NRASS = 1)"""
+    n = 2 + (1 if (1 <= g <= 3 or 6 <= g <= 11 or g >= 12) else 0) + (1 if (g > 0 or nbs > 0) else 0)
+    if g > 0:
+        n += nk if nrass == 0 else fk
+    return n
+
+
+def _geodst_obligations(ctx, d, c, canary_hit=None):
+    for name in _GEODST_ARRAYS:
         w = getattr(d, name)
         if w is None:
             continue
-        ok = same_array(w, getattr(back, name))
-        if ctx.canary and name == "ymesh" and g == 9 and nj == 2:
+        ok = same_array(w, getattr(c.back, name))
+        if canary_hit is not None and canary_hit(name):
             ok = False
         ctx.check("record data announced by the header reads back: %s" % name, ok)
-    ctx.check("header integers read back", all(back.metadata[k] == md[k] for k in geodst.FILE_SPEC_1D_KEYS))
+    ctx.check("header integers read back", all(c.back.metadata[k] == d.metadata[k] for k in geodst.FILE_SPEC_1D_KEYS)
+              and c.back.metadata["label"] == "GEODST verif")
+
+
+def _geodst_mesh_body(ctx, binary, g, coarse, fine, nbs, nrass, canary_hit):
+    (ni, nj, nk), (fi, fj, fk) = coarse, fine
+    d = _geodst_container(g, coarse, fine, 2, 30, nbs, 1, 1, 1, nrass)
+    c = RoundTrip(geodst.GeodstStream, d, binary)
+    if not c.obligations(ctx, _geodst_num_records(g, nk, fk, nbs, nrass)):
+        return
+    _geodst_obligations(ctx, d, c, canary_hit if ctx.canary else None)
+    # Reader and writer are one routine, so a round trip cannot see in which order a record lists its numbers; the
+    # description of cccc._rwMatrix can: a region-assignment record is ((MR(I,J),I=1,N..I),J=1,N..J) for one plane
+    if binary and g > 0 and c.records:
+        regions = d.coarseMeshRegions if nrass == 0 else d.fineMeshRegions
+        expect = [int(regions[i, j, -1]) for j in range(regions.shape[1]) for i in range(regions.shape[0])]
+        ctx.check("the last region-assignment record lists the regions of the top plane, I running fastest",
+                  len(c.records[-1]) == 4 * len(expect)
+                  and list(struct.unpack("%di" % len(expect), c.records[-1])) == expect)
+
+
+@harness("C09", bounds="GEODST, every geometry type: IGOM in 0..18, coarse mesh counts 1..2 per direction, fine mesh "
+                       "either equal to the coarse mesh or one interval finer in every direction (quick) / "
+                       "independently per direction (thorough), region assignment to the coarse or to the fine mesh "
+                       "(NRASS in {0,1}), NBS = 1 (quick; the counts of the geometry-data record have their own "
+                       "harness) / 0..1 (thorough): all combinations (solver-enumerated); 30 regions so that every "
+                       "mesh cell has its own region number", stubs=STUBS, max_paths=8000,
+         instances={"quick": [dict(binary=True, igom=(0, 18), perDirection=False, minNbs=1)],
+                    "thorough": [dict(binary=b, igom=r, perDirection=True, minNbs=0) for b in (True, False)
+                                 for r in ((0, 5), (6, 11), (12, 18))]})
+def geodst_roundtrip_for_every_header(ctx, binary, igom, perDirection, minNbs):
+    g = int(ctx.int("IGOM", igom[0], igom[1]))
+    ni, nj, nk = (int(ctx.int(n, 1, 2)) for n in ("NCINTI", "NCINTJ", "NCINTK"))
+    # how many fine-mesh intervals more than coarse-mesh intervals, per direction
+    ri, rj, rk = (ctx.int(n, 0, 1) for n in ("refineI", "refineJ", "refineK"))
+    if not perDirection:
+        ctx.assume(ri == rj)
+        ctx.assume(rj == rk)
+    fi, fj, fk = ni + int(ri), nj + int(rj), nk + int(rk)
+    nbs = int(ctx.int("NBS", minNbs, 1))
+    nrass = int(ctx.int("NRASS", 0, 1))
+    _geodst_mesh_body(ctx, binary, g, (ni, nj, nk), (fi, fj, fk), nbs, nrass,
+                      lambda name: name == "fineMeshRegions" and g % 3 == 0 and nj == 2 and fk == 2)
+
+
+@harness("C09", bounds="GEODST region-assignment records: coarse mesh counts 1..2 per direction, fine mesh counts NINTx "
+                       "in NCINTx..NCINTx+1 independently per direction (a fine mesh equal to or finer than the coarse "
+                       "mesh in I, J and K), region assignment to the coarse or to the fine mesh (NRASS in {0,1}), one "
+                       "geometry type of each dimensionality (IGOM in {2, 7, 17}): all combinations",
+         stubs=STUBS, max_paths=8000,
+         instances={"quick": [dict(binary=True)], "thorough": [dict(binary=True), dict(binary=False)]})
+def geodst_region_assignment_records_for_every_mesh(ctx, binary):
+    g = ctx.choice("IGOM", [2, 7, 17])
+    ni, nj, nk = (int(ctx.int(n, 1, 2)) for n in ("NCINTI", "NCINTJ", "NCINTK"))
+    fiS, fjS, fkS = (ctx.int(n, 1, 3) for n in ("NINTI", "NINTJ", "NINTK"))
+    for c_, f_ in ((ni, fiS), (nj, fjS), (nk, fkS)):
+        ctx.assume(f_ >= c_)                   # every coarse-mesh interval holds at least one fine-mesh interval
+        ctx.assume(f_ <= c_ + 1)
+    fi, fj, fk = int(fiS), int(fjS), int(fkS)
+    nrass = int(ctx.int("NRASS", 0, 1))
+    _geodst_mesh_body(ctx, binary, g, (ni, nj, nk), (fi, fj, fk), 1, nrass,
+                      lambda name: name == "fineMeshRegions" and g == 7 and nj == 2 and fk == 2 and fi == 1)
+
+
+@harness("C09", bounds="GEODST geometry-data (5D) record: zones 1..2, regions 1..2, buckling values NBS 0..2, boundary "
+                       "constants NBCS 0..2, internal black boundary constants NIBCS 0..1, zones with black absorber "
+                       "NZWBB 0..2, geometry type 0 (the record exists iff NBS > 0) or 14: all combinations; binary "
+                       "(thorough: and ASCII)", stubs=STUBS, max_paths=3000,
+         instances={"quick": [dict(binary=True)], "thorough": [dict(binary=True), dict(binary=False)]})
+def geodst_geometry_data_record_for_every_header(ctx, binary):
+    g = ctx.choice("IGOM", [0, 14])
+    nzone, nreg = int(ctx.int("NZONE", 1, 2)), int(ctx.int("NREG", 1, 2))
+    nbs, nbcs = int(ctx.int("NBS", 0, 2)), int(ctx.int("NBCS", 0, 2))
+    nibcs, nzwbb = int(ctx.int("NIBCS", 0, 1)), int(ctx.int("NZWBB", 0, 2))
+    d = _geodst_container(g, (2, 1, 1), (2, 1, 2), nzone, nreg, nbs, nbcs, nibcs, nzwbb, 0)
+    c = RoundTrip(geodst.GeodstStream, d, binary)
+    if not c.obligations(ctx, _geodst_num_records(g, 1, 2, nbs, 0)):
+        return
+    _geodst_obligations(ctx, d, c, (lambda name: name == "regionZoneNumber" and nbs == 2 and nbcs == 1 and nzwbb == 2
+                                    and nreg == 2) if ctx.canary else None)
+    if g > 0 or nbs > 0:
+        # CCCC-IV, 5D record: (VOLR(N),N=1,NREG), (BSQ(N),N=1,NBS), (BNDC(N),N=1,NBCS), (BNCI(N),N=1,NIBCS),
+        # (NZHBB(N),N=1,NZWBB), (NZC(N),N=1,NZONE), (NZNR(N),N=1,NREG): one 4-byte word each
+        if binary and c.records:
+            k = 3 if g > 0 else 2
+            ctx.check("the geometry-data record is as long as the header counts say",
+                      len(c.records) > k and len(c.records[k]) == 4 * (2 * nreg + nbs + nbcs + nibcs + nzwbb + nzone))
+
+
+# ---------------------------------------------------------------------------------------------------------------------
+# PWDINT
 
 
 @harness("C09", bounds="PWDINT: mesh counts 1..3 x 1..4 x 1..2, sub-blocking factor NBLOK 1..4, all combinations",
@@ -117,22 +294,40 @@ def pwdint_roundtrip_for_every_header(ctx, binary):
     nb = int(ctx.int("NBLOK", 1, 4))
     ctx.assume(nb <= nj)
     d = pwdint.PwdintData()
-    setmd(d.metadata, dict(hname="PWDINT", huse="verif", huse2="", version=1, mult=1, TIME=1.5, POWER=2.5e6, VOL=3.0,
-                           NINTI=ni, NINTJ=nj, NINTK=nk, NCY=0, NBLOK=nb))
+    setmd(d.metadata, dict(hname="PWDINT", huse="verif", huse2="u2", version=1, mult=2, TIME=1.5, POWER=2.5e6, VOL=3.0,
+                           NINTI=ni, NINTJ=nj, NINTK=nk, NCY=5, NBLOK=nb))
+    written = dict(d.metadata.items())
     d.powerDensity = (np.arange(ni * nj * nk, dtype=np.float32).reshape(ni, nj, nk) + 1.0)
-    back, left, err = roundtrip(ctx, pwdint.PwdintStream, d, binary)
-    ctx.check("reader accepts what the writer produced", err is None)
-    ctx.check("reader consumes the whole file", left == 0)
-    ok = same_array(d.powerDensity, back.powerDensity)
+    want = d.powerDensity.copy()
+    c = RoundTrip(pwdint.PwdintStream, d, binary)
+    if not c.obligations(ctx, 2 + nk * nb):      # one power-density record per plane and block
+        return
+    back = c.back
+    ok = same_array(want, back.powerDensity)
     if ctx.canary and nj == 3 and nb == 2:
         ok = False
     ctx.check("power density reads back for every sub-blocking", ok)
-    ctx.check("header reads back", all(back.metadata[k] == d.metadata[k] for k in ("NINTI", "NINTJ", "NINTK", "NBLOK")))
+    ctx.check("header reads back", header_ok(written, back.metadata, pwdint.FILE_SPEC_1D_KEYS)
+              and all(back.metadata[k] == written[k] for k in ("hname", "huse", "huse2", "version", "mult")))
+    if binary and c.records:
+        # CCCC-IV: ((PWR(I,J),I=1,NINTI),J=JL,JU) for each block of each plane
+        jl, ju = first_block(nj, nb)
+        expect = [float(want[i, j, 0]) for j in range(jl, ju) for i in range(ni)]
+        ctx.check("the first power-density record lists the first block of columns of the first plane, I running "
+                  "fastest", len(c.records[2]) == 4 * len(expect)
+                  and list(struct.unpack("%df" % len(expect), c.records[2])) == expect)
 
 
-@harness("C09", bounds="RTFLUX/ATFLUX: NDIM 2..3, groups 1..3, mesh 1..2 x 1..4 x 1..2, NBLOK 1..4, all combinations",
-         stubs=STUBS, max_paths=8000, instances={"quick": [dict(adjoint=False), dict(adjoint=True)]})
-def rtflux_roundtrip_for_every_header(ctx, adjoint):
+# ---------------------------------------------------------------------------------------------------------------------
+# RTFLUX / ATFLUX
+
+
+@harness("C09", bounds="RTFLUX/ATFLUX: NDIM 2..3, groups 1..3, mesh 1..2 x 1..4 x 1..2, NBLOK 1..4, all combinations; "
+                       "binary (thorough: and ASCII)",
+         stubs=STUBS, max_paths=8000,
+         instances={"quick": [dict(adjoint=False, binary=True), dict(adjoint=True, binary=True)],
+                    "thorough": [dict(adjoint=a, binary=b) for a in (False, True) for b in (True, False)]})
+def rtflux_roundtrip_for_every_header(ctx, adjoint, binary):
     ng = int(ctx.int("NGROUP", 1, 3))
     ni, nj, nk = int(ctx.int("NINTI", 1, 2)), int(ctx.int("NINTJ", 1, 4)), int(ctx.int("NINTK", 1, 2))
     nb = int(ctx.int("NBLOK", 1, 4))
@@ -140,20 +335,33 @@ def rtflux_roundtrip_for_every_header(ctx, adjoint):
     cls = rtflux.AtfluxStream if adjoint else rtflux.RtfluxStream
     d = rtflux.RtfluxData()
     setmd(d.metadata, dict(label="RTFLUX verif", NDIM=3 if nk > 1 else 2, NGROUP=ng, NINTI=ni, NINTJ=nj, NINTK=nk,
-                           ITER=4, EFFK=1.01, POWER=1e6, NBLOK=nb))
+                           ITER=4, EFFK=1.5, POWER=1048576.0, NBLOK=nb))
+    written = dict(d.metadata.items())
     d.groupFluxes = np.arange(ni * nj * nk * ng, dtype=float).reshape(ni, nj, nk, ng) + 0.5
-    back, left, err = roundtrip(ctx, cls, d, True)
-    ctx.check("reader accepts what the writer produced", err is None)
-    ctx.check("reader consumes the whole file", left == 0)
-    ok = same_array(d.groupFluxes, back.groupFluxes, rtol=1e-12)
+    want = d.groupFluxes.copy()
+    c = RoundTrip(cls, d, binary)
+    if not c.obligations(ctx, 2 + ng * nk * nb):   # one flux record per group, plane and block
+        return
+    back = c.back
+    ok = same_array(want, back.groupFluxes, rtol=1e-12)
     if ctx.canary and ng == 3 and nb == 2 and nj == 4:
         ok = False
     ctx.check("group fluxes read back (doubles exactly)", ok)
+    ctx.check("header reads back", header_ok(written, back.metadata, rtflux.FILE_SPEC_1D_KEYS)
+              and back.metadata["label"] == "RTFLUX verif")
     # the file stores groups in forward (RTFLUX) or reversed (ATFLUX) order: reading the same bytes with the other
     # class must give the group-reversed array
     other = rtflux.RtfluxStream if adjoint else rtflux.AtfluxStream
-    raw = _run(cls, d, "wb").getvalue()
     fresh = rtflux.RtfluxData()
-    _run(other, fresh, "rb", raw)
+    _run(other, fresh, "rb" if binary else "r", c.raw)
     ctx.check("adjoint and real files differ exactly by group order",
-              same_array(fresh.groupFluxes, d.groupFluxes[:, :, :, ::-1], rtol=1e-12))
+              same_array(fresh.groupFluxes, want[:, :, :, ::-1], rtol=1e-12))
+    if binary and c.records:
+        # CCCC-IV: ((FREG(I,J),I=1,NINTI),J=JL,JU) for each block, plane and group; RTFLUX lists the groups in order,
+        # ATFLUX in reversed order
+        jl, ju = first_block(nj, nb)
+        gFirst = ng - 1 if adjoint else 0
+        expect = [float(want[i, j, 0, gFirst]) for j in range(jl, ju) for i in range(ni)]
+        ctx.check("the first flux record lists the first block of columns of the first plane of the first group on "
+                  "the file, I running fastest", len(c.records[2]) == 8 * len(expect)
+                  and list(struct.unpack("%dd" % len(expect), c.records[2])) == expect)
